@@ -175,6 +175,8 @@ def run_plan(rep, prop, tier, seed, twin=None):
     jobs = plan(prop, tier, seed)
     fill_report(rep, prop, tier)
     validate_reference(rep, prop)
+    from vk.kernels import lemmas
+    jobs += lemmas.jobs(prop, tier)
     res = common.run_jobs(jobs)
     rep.add_jobs(res)
     return res
